@@ -17,6 +17,13 @@ import (
 type hkey struct{ K int32 }
 type skey struct{ K int32 }
 
+// Named types whose KIND is string / int / int64 but for which no frame ops are
+// registered: frame looks ops up by exact type, so these cannot be hashed or sorted
+// although an accumulator could be built for their kind.
+type nStr string
+type nInt int
+type nI64 int64
+
 type myBool bool
 type myInt int
 type ints []int
@@ -63,6 +70,10 @@ var (
 	tBool    = reflect.TypeOf(false)
 	tInts    = reflect.TypeOf([]int(nil))
 	tStrings = reflect.TypeOf([]string(nil))
+	tNStr    = reflect.TypeOf(nStr(""))
+	tNInt    = reflect.TypeOf(nInt(0))
+	tNI64    = reflect.TypeOf(nI64(0))
+	tInt64   = reflect.TypeOf(int64(0))
 	tHkey    = reflect.TypeOf(hkey{})
 	tSkey    = reflect.TypeOf(skey{})
 	tTrace   = reflect.TypeOf((*traceCtx)(nil)).Elem()
@@ -81,6 +92,10 @@ var caps = map[reflect.Type]capability{
 	tInt:     {true, true},
 	tString:  {true, true},
 	tFloat:   {true, true},
+	tInt64:   {true, true},
+	tNStr:    {false, false},
+	tNInt:    {false, false},
+	tNI64:    {false, false},
 	tInts:    {false, false},
 	tStrings: {false, false},
 	tHkey:    {true, false},
